@@ -360,9 +360,11 @@ def run_case(case):
     site = sites[si]
     sname, cls, access, size = site[0], site[1], site[2], site[3]
     ref = reference(a, ii, si, kind)
-    pre_sig = "%s:%s:%s:%s" % (an, be, cls, kind)
-    ctx_txt = "%s `%s` (%s access faults, %s, fault address %#x), position %s, backend %s, jit_maxline %d" % (
-        an, asm, sname, kind, fault_addr(kind, size), pos, be, ml)
+    # signature skeleton: which half of the access faults (the instruction class goes to the witness text)
+    direction = "load" if access == "r" or (access == "rw" and kind in ("unmapped", "straddle")) else "store"
+    pre_sig = "%s:%s:%s-faults:%s" % (an, be, direction, kind)
+    ctx_txt = "%s `%s` (%s, %s access faults, %s, fault address %#x), position %s in its block, backend %s, jit_maxline %d" % (
+        an, asm, cls, sname, kind, fault_addr(kind, size), pos, be, ml)
     if isinstance(ref, str):
         return [("harness:reference-failed:%s:%s" % (an, iname), ref + " for " + ctx_txt)], {"outcome": "ref-failed"}
     (pre_regs, pre_mem), (fin_regs, fin_mem) = ref
@@ -391,16 +393,20 @@ def run_case(case):
             probs.append((pre_sig + ":stops-with-other-exception-flags",
                           "run of %s raised %s instead of reporting an access violation" % (ctx_txt, escaped)))
         else:
+            dm = _diff_mem(observe(jit)[1], pre_mem)
             probs.append((pre_sig + ":host-exception-escapes-run:%s" % type(escaped).__name__,
-                          "jitter.run raised %s: %s (jitter.pc=%#x, F=%#x, vm exception flags %#x) for %s" % (
-                              type(escaped).__name__, escaped, jit.pc, F, jit.vm.get_exception(), ctx_txt)))
+                          "jitter.run raised %s: %s (jitter.pc=%#x, F=%#x, vm exception flags %#x, memory changed at %s) for %s" % (
+                              type(escaped).__name__, escaped, jit.pc, F, jit.vm.get_exception(),
+                              [hex(x if x is not None else p) for p, x in dm] or "nowhere", ctx_txt)))
         info["outcome"] = "escaped"
         return probs, info
     if not st["faults"]:
         got_regs, got_mem = observe(jit)
+        dm = _diff_mem(got_mem, pre_mem)
         probs.append((pre_sig + ":fault-not-reported",
-                      "no access violation was reported (run %s, jitter.pc=%#x); registers differing from the state before F: %s; for %s" % (
-                          "reached done" if st["done"] else "stopped", jit.pc, _diff_regs(got_regs, pre_regs, ignore), ctx_txt)))
+                      "no access violation was reported (run %s, jitter.pc=%#x); memory changed at %s; registers differing from the state before F: %s; for %s" % (
+                          "reached done" if st["done"] else "stopped", jit.pc, [hex(x if x is not None else p) for p, x in dm] or "nowhere",
+                          _diff_regs(got_regs, pre_regs, ignore), ctx_txt)))
         info["outcome"] = "no-fault"
         return probs, info
     info["outcome"] = "fault"
